@@ -50,19 +50,19 @@ def pkg_of(d):
 PACKET_DIRS = ("net/client", "net/server")
 
 
-def spec_tree(pairs, packet_refs):
+def spec_tree(pairs, packet_refs, P="G"):
     """A valid spec tree: one enum per documented directory, PacketFamily/PacketAction in net, one struct
     in d1 referencing the enum of d2 for each (d1, d2) in `pairs`, and one packet per packet directory
     referencing the enums of `packet_refs`.  Type names are fresh identifiers that collide with nothing."""
     types = {}
     for d in DIRS:
-        types["GEnum" + tag(d)] = (d, "enum", [])
+        types[P + "Enum" + tag(d)] = (d, "enum", [])
     types["PacketFamily"] = ("net", "enum", [])
     types["PacketAction"] = ("net", "enum", [])
     for d1, d2 in pairs:
-        types["GStruct%sUses%s" % (tag(d1), tag(d2))] = (d1, "struct", ["GEnum" + tag(d2)])
+        types["%sStruct%sUses%s" % (P, tag(d1), tag(d2))] = (d1, "struct", [P + "Enum" + tag(d2)])
     for side, suffix in (("net/client", "ClientPacket"), ("net/server", "ServerPacket")):
-        types["GFamGAct" + suffix] = (side, "packet", ["GEnum" + tag(d) for d in packet_refs])
+        types["%sFam%sAct%s" % (P, P, suffix)] = (side, "packet", [P + "Enum" + tag(d) for d in packet_refs])
     return types
 
 
@@ -100,7 +100,18 @@ def tree_family():
     """Representative trees: no cross reference; each single cross-directory reference direction; every
     reference direction that does not point into a packet directory from outside it, all at once; packets
     referencing every directory."""
-    fam = [("no cross-directory reference", spec_tree([(d, d) for d in DIRS], [""]))]
+    fam = []
+    # generated __init__ files star-import their modules in reverse alphabetical order: names that sort before and
+    # after packet_family / packet_action (and before/after each other) see different initialisation orders
+    for P in ("G", "Z"):
+        fam += _tree_family(P)
+    return fam
+
+
+def _tree_family(P):
+    def spec_tree_(pairs, refs):
+        return spec_tree(pairs, refs, P)
+    fam = [("no cross-directory reference", spec_tree_([(d, d) for d in DIRS], [""]), P)]
     inward = []
     safe = []
     for d1 in DIRS:
@@ -110,11 +121,11 @@ def tree_family():
             into_packets = d2 in PACKET_DIRS and d1 != d2
             (inward if into_packets else safe).append((d1, d2))
     for d1, d2 in safe:
-        fam.append(("struct in %s uses a type of %s" % (d1 or "<root>", d2 or "<root>"), spec_tree([(d1, d2)], [""])))
+        fam.append(("struct in %s uses a type of %s" % (d1 or "<root>", d2 or "<root>"), spec_tree_([(d1, d2)], [""]), P))
     fam.append(("every reference direction except into a packet directory, packets use every directory",
-                spec_tree(safe + [(d, d) for d in DIRS], list(DIRS))))
+                spec_tree_(safe + [(d, d) for d in DIRS], list(DIRS)), P))
     for d1, d2 in inward:
-        fam.append(("struct in %s uses a type of %s (a packet directory)" % (d1 or "<root>", d2), spec_tree([(d1, d2)], [""])))
+        fam.append(("struct in %s uses a type of %s (a packet directory)" % (d1 or "<root>", d2), spec_tree_([(d1, d2)], [""]), P))
     return fam
 
 
@@ -134,7 +145,7 @@ def run(rep, index):
     rep.count("documented module paths", len(documented))
     family = tree_family()
     rep.count("spec trees", len(family))
-    for tname, types in family:
+    for tname, types, prefix in family:
         gen_modules = render(types)
 
         def provider(name, gen_modules=gen_modules):
@@ -152,11 +163,11 @@ def run(rep, index):
         # the big tree is explored from every possible first import; single-reference trees from a spread
         big = tname.startswith(("every reference", "no cross"))
         entries = (static + sorted(gen_modules)) if big else (["eolib", "eolib.protocol.net.packet", "eolib.data.eo_reader"] + sorted(
-            k for k in gen_modules if "g_struct" in k or "packet" in k))
+            k for k in gen_modules if "_struct" in k or "packet" in k))
         rep.count("first imports explored", len(entries))
         for entry in entries:
             w = World(provider)
-            where = "[tree: %s; first import %s]" % (tname, entry)
+            where = "[tree: %s; type names %s...; first import %s]" % (tname, prefix, entry)
             try:
                 w.import_module(entry)
                 for d in documented:  # a user may then import any documented module explicitly
